@@ -28,12 +28,12 @@ def generate():
         out.append("Definition ENC_%s : N := %d." % (n, gt.const(e, n, "encode.rs")))
     # ---- SanitizeParams
     b = gt.fn_body(e, "SanitizeParams", "encode.rs")
-    m = re.search(r"params\.quality\s*=\s*min\(\s*%s\s*,\s*max\(\s*%s\s*,\s*params\.quality\s*\)\s*\)" % (gt.LIT, gt.LIT), b)
+    m = re.search(r"(\w+)\.quality\s*=\s*min\(\s*%s\s*,\s*max\(\s*%s\s*,\s*\1\.quality\s*\)\s*\)" % (gt.LIT, gt.LIT), b)
     if not m:
         raise gt.GenError("SanitizeParams: quality clamp not found")
-    out.append("Definition SAN_QMAX : Z := %d." % gt.parse_num(m.group(1), "SanitizeParams"))
-    out.append("Definition SAN_QMIN : Z := %d." % gt.parse_num(m.group(2), "SanitizeParams"))
-    m = re.search(r"if\s+params\.lgwin\s*<\s*%s\s*\{\s*params\.lgwin\s*=\s*%s;\s*\}\s*else\s+if\s+params\.lgwin\s*>\s*%s\s*\{\s*if\s+params\.large_window[^{]*\{\s*if\s+params\.lgwin\s*>\s*%s\s*\{\s*params\.lgwin\s*=\s*%s;\s*\}\s*\}\s*else\s*\{\s*params\.lgwin\s*=\s*%s;"
+    out.append("Definition SAN_QMAX : Z := %d." % gt.parse_num(m.group(2), "SanitizeParams"))
+    out.append("Definition SAN_QMIN : Z := %d." % gt.parse_num(m.group(3), "SanitizeParams"))
+    m = re.search(r"if\s+\w+\.lgwin\s*<\s*%s\s*\{\s*\w+\.lgwin\s*=\s*%s;\s*\}\s*else\s+if\s+\w+\.lgwin\s*>\s*%s\s*\{\s*if\s+\w+\.large_window[^{]*\{\s*if\s+\w+\.lgwin\s*>\s*%s\s*\{\s*\w+\.lgwin\s*=\s*%s;\s*\}\s*\}\s*else\s*\{\s*\w+\.lgwin\s*=\s*%s;"
                   % ((gt.LIT,) * 6), b)
     if not m:
         raise gt.GenError("SanitizeParams: lgwin clamp not found")
@@ -45,50 +45,50 @@ def generate():
     out.append("Definition SAN_WMAX_LARGE : Z := %d." % v[3])
     # ---- ComputeLgBlock
     b = gt.fn_body(e, "ComputeLgBlock", "encode.rs")
-    m = re.search(r"params\.quality\s*==\s*%s\s*\|\|\s*params\.quality\s*==\s*%s\s*\{\s*lgblock\s*=\s*params\.lgwin;\s*\}\s*else\s+if\s+params\.quality\s*<\s*%s\s*\{\s*lgblock\s*=\s*%s;\s*\}\s*else\s+if\s+lgblock\s*==\s*%s\s*\{\s*lgblock\s*=\s*%s;\s*if\s+params\.quality\s*>=\s*%s\s*&&\s*\(params\.lgwin\s*>\s*lgblock\)\s*\{\s*lgblock\s*=\s*min\(\s*%s\s*,\s*params\.lgwin\s*\);\s*\}\s*\}\s*else\s*\{\s*lgblock\s*=\s*min\(\s*%s\s*,\s*max\(\s*%s\s*,\s*lgblock\s*\)\s*\);"
+    m = re.search(r"let\s+mut\s+(\w+)\s*:\s*i32\s*=\s*\w+\.lgblock;\s*if\s+\w+\.quality\s*==\s*%s\s*\|\|\s*\w+\.quality\s*==\s*%s\s*\{\s*\1\s*=\s*\w+\.lgwin;\s*\}\s*else\s+if\s+\w+\.quality\s*<\s*%s\s*\{\s*\1\s*=\s*%s;\s*\}\s*else\s+if\s+\1\s*==\s*%s\s*\{\s*\1\s*=\s*%s;\s*if\s+\w+\.quality\s*>=\s*%s\s*&&\s*\(\w+\.lgwin\s*>\s*\1\)\s*\{\s*\1\s*=\s*min\(\s*%s\s*,\s*\w+\.lgwin\s*\);\s*\}\s*\}\s*else\s*\{\s*\1\s*=\s*min\(\s*%s\s*,\s*max\(\s*%s\s*,\s*\1\s*\)\s*\);"
                   % ((gt.LIT,) * 10), b)
     if not m:
         raise gt.GenError("ComputeLgBlock: shape not recognised")
-    v = [gt.parse_num(m.group(i), "ComputeLgBlock") for i in range(1, 11)]
+    v = [gt.parse_num(m.group(i), "ComputeLgBlock") for i in range(2, 12)]
     names = ["LGB_Q0", "LGB_Q1", "LGB_QLOW", "LGB_LOW", "LGB_UNSET", "LGB_DEFAULT", "LGB_QHIGH", "LGB_HIGH", "LGB_MAX", "LGB_MIN"]
     for n, x in zip(names, v):
         out.append("Definition %s : Z := %d." % (n, x))
     # ---- ComputeRbBits
     b = gt.fn_body(e, "ComputeRbBits", "encode.rs")
-    m = re.search(r"%s\s*\+\s*max\(\s*params\.lgwin\s*,\s*params\.lgblock\s*\)" % gt.LIT, b)
+    m = re.search(r"%s\s*\+\s*max\(\s*\w+\.lgwin\s*,\s*\w+\.lgblock\s*\)" % gt.LIT, b)
     if not m:
         raise gt.GenError("ComputeRbBits: `k + max(lgwin, lgblock)` not found")
     out.append("Definition RB_EXTRA_BITS : Z := %d." % gt.parse_num(m.group(1), "ComputeRbBits"))
     # ---- RingBufferWrite: the fold of pos_ beyond 2^k
     b = gt.fn_body_any(e, "RingBufferWrite", "encode.rs")
-    m = re.search(r"let\s+pos\s*:\s*u64\s*=\s*\(rb\.pos_\s+as\s+u64\)\.wrapping_add\(n\s+as\s+u64\);\s*rb\.pos_\s*=\s*if\s+pos\s*>\s*1u64\s*<<\s*%s\s*\{\s*\(pos\s*&\s*\(1u64\s*<<\s*%s\)\.wrapping_sub\(1\)\s*\|\s*1u64\s*<<\s*%s\)\s*as\s+u32\s*\}\s*else\s*\{\s*pos\s+as\s+u32\s*\}" % ((gt.LIT,) * 3), b)
+    m = re.search(r"let\s+(\w+)\s*:\s*u64\s*=\s*\((\w+)\.pos_\s+as\s+u64\)\.wrapping_add\(\w+\s+as\s+u64\);\s*\2\.pos_\s*=\s*if\s+\1\s*>\s*1u64\s*<<\s*%s\s*\{\s*\(\1\s*&\s*\(1u64\s*<<\s*%s\)\.wrapping_sub\(1\)\s*\|\s*1u64\s*<<\s*%s\)\s*as\s+u32\s*\}\s*else\s*\{\s*\1\s+as\s+u32\s*\}" % ((gt.LIT,) * 3), b)
     if not m:
         raise gt.GenError("RingBufferWrite: position fold (u64 form) not found")
-    v = [gt.parse_num(m.group(i), "RingBufferWrite") for i in range(1, 4)]
+    v = [gt.parse_num(m.group(i), "RingBufferWrite") for i in range(3, 6)]
     if len(set(v)) != 1:
         raise gt.GenError("RingBufferWrite: fold literals differ %r" % (v,))
     out.append("Definition RB_FOLD_BITS : N := %d." % v[0])
     # ---- WrapPosition
     b = gt.fn_body(e, "WrapPosition", "encode.rs")
-    m = re.search(r"let\s+gb\s*:\s*u64\s*=\s*position\s*>>\s*%s;\s*if\s+gb\s*>\s*%s\s*\{\s*result\s*=\s*result\s*&\s*\(1u32\s*<<\s*%s\)\.wrapping_sub\(1\)\s*\|\s*\(\(gb\.wrapping_sub\(1\)\s*&\s*1\)\s*as\s*u32\)\.wrapping_add\(1\)\s*<<\s*%s;" % ((gt.LIT,) * 4), b)
+    m = re.search(r"let\s+mut\s+(\w+)\s*:\s*u32\s*=\s*(\w+)\s+as\s+u32;\s*let\s+(\w+)\s*:\s*u64\s*=\s*\2\s*>>\s*%s;\s*if\s+\3\s*>\s*%s\s*\{\s*\1\s*=\s*\1\s*&\s*\(1u32\s*<<\s*%s\)\.wrapping_sub\(1\)\s*\|\s*\(\(\3\.wrapping_sub\(1\)\s*&\s*1\)\s*as\s*u32\)\.wrapping_add\(1\)\s*<<\s*%s;\s*\}\s*\1\s*\}" % ((gt.LIT,) * 4), b)
     if not m:
         raise gt.GenError("WrapPosition: shape not recognised")
-    v = [gt.parse_num(m.group(i), "WrapPosition") for i in range(1, 5)]
+    v = [gt.parse_num(m.group(i), "WrapPosition") for i in range(4, 8)]
     if not (v[0] == v[2] == v[3]):
         raise gt.GenError("WrapPosition: shift literals differ %r" % (v,))
     out.append("Definition WRAP_BITS : N := %d." % v[0])
     out.append("Definition WRAP_GB_THRESHOLD : N := %d." % v[1])
     # ---- ChooseDistanceParams
     b = gt.fn_body(e, "ChooseDistanceParams", "encode.rs")
-    m = re.search(r"if\s+params\.quality\s*>=\s*%s\s*\{\s*if\s+params\.mode\s*==\s*BrotliEncoderMode::BROTLI_MODE_FONT\s*\{\s*distance_postfix_bits\s*=\s*%s;\s*num_direct_distance_codes\s*=\s*%s;" % ((gt.LIT,) * 3), b)
+    m = re.search(r"if\s+\w+\.quality\s*>=\s*%s\s*\{\s*if\s+\w+\.mode\s*==\s*BrotliEncoderMode::BROTLI_MODE_FONT\s*\{\s*(\w+)\s*=\s*%s;\s*(\w+)\s*=\s*%s;\s*\}\s*else\s*\{\s*\2\s*=\s*\w+\.dist\.distance_postfix_bits;\s*\4\s*=\s*\w+\.dist\.num_direct_distance_codes;" % ((gt.LIT,) * 3), b)
     if not m:
         raise gt.GenError("ChooseDistanceParams: FONT branch not found")
     out.append("Definition DIST_MIN_QUALITY : Z := %d." % gt.parse_num(m.group(1), "ChooseDistanceParams"))
-    out.append("Definition DIST_FONT_NPOSTFIX : N := %d." % gt.parse_num(m.group(2), "ChooseDistanceParams"))
-    out.append("Definition DIST_FONT_NDIRECT : N := %d." % gt.parse_num(m.group(3), "ChooseDistanceParams"))
+    out.append("Definition DIST_FONT_NPOSTFIX : N := %d." % gt.parse_num(m.group(3), "ChooseDistanceParams"))
+    out.append("Definition DIST_FONT_NDIRECT : N := %d." % gt.parse_num(m.group(5), "ChooseDistanceParams"))
     # ---- BrotliInitDistanceParams
     b = gt.fn_body(mb, "BrotliInitDistanceParams", "metablock.rs")
-    m = re.search(r"let\s+bound\s*:\s*\[u32;[^\]]*\]\s*=\s*\[([^\]]*)\];", b)
+    m = re.search(r"let\s+\w+\s*:\s*\[u32;\s*BROTLI_MAX_NPOSTFIX\s*\+\s*1\]\s*=\s*\[([^\]]*)\];", b)
     if not m:
         raise gt.GenError("BrotliInitDistanceParams: bound table not found")
     out.append("Definition DIST_BOUND : list N := %s." % gt.coq_list([gt.parse_num(t, "bound") for t in m.group(1).split(",") if t.strip()]))
@@ -101,16 +101,17 @@ def generate():
     sizes["BROTLI_SIMPLE_DISTANCE_ALPHABET_SIZE"] = (gt.const(e, "BROTLI_NUM_DISTANCE_SHORT_CODES", "encode.rs")
                                                       + gt.parse_num(m.group(1), "hq.rs") * gt.const(e, "BROTLI_LARGE_MAX_DISTANCE_BITS", "encode.rs"))
     b = gt.fn_body(hq, "set_from_commands", "hq.rs")
-    m = re.search(r"let\s+mut\s+histogram_dist\s*=\s*\[0u32;\s*(\w+)\s*\];", b)
+    m = re.search(r"let\s+mut\s+(\w+)\s*=\s*\[0u32;\s*(\w+)\s*\];\s*let\s+mut\s+cost_literal", b)
     if not m:
         raise gt.GenError("hq.rs set_from_commands: histogram_dist declaration not found")
-    tok = m.group(1)
+    hist_name = m.group(1)
+    tok = m.group(2)
     if tok in sizes:
         n = sizes[tok]
     elif tok.isdigit():
         n = int(tok)
     else:
-        raise GenError("hq.rs: unknown size constant %s" % tok)
+        raise gt.GenError("hq.rs: unknown size constant %s" % tok)
     out.append("Definition HQ_HIST_DIST_LEN : N := %d." % n)
     out.append("Definition HQ_SIMPLE_DISTANCE_ALPHABET_SIZE : N := %d." % sizes["BROTLI_SIMPLE_DISTANCE_ALPHABET_SIZE"])
     m = re.search(r"distance_histogram_size\s*:\s*min\(\s*dist\.alphabet_size\s*,\s*%s\s*\)" % gt.LIT, hq)
@@ -118,6 +119,6 @@ def generate():
         raise gt.GenError("hq.rs: distance_histogram_size cap not found")
     out.append("Definition HQ_DIST_HIST_CAP : N := %d." % gt.parse_num(m.group(1), "hq.rs"))
     # SetCost is handed the histogram and distance_histogram_size
-    if not re.search(r"SetCost\(\s*&histogram_dist\[\.\.\],\s*self\.distance_histogram_size\s*as\s*usize,", b):
+    if not re.search(r"SetCost\(\s*&" + re.escape(hist_name) + r"\[\.\.\],\s*self\.distance_histogram_size\s*as\s*usize,", b):
         raise gt.GenError("hq.rs set_from_commands: SetCost(&histogram_dist[..], self.distance_histogram_size ..) not found")
     return out
